@@ -80,7 +80,8 @@ def dist_case(draw):
         if kind == "zero":
             rows.append(dict(b=[0.0] * sv.m, kind="zero"))
         else:
-            rows.append(dict(b=(b * draw(gens.log_uniform(0.05, 50.0))).tolist(), kind=kind))
+            # total capture of the target: ordinary, or very dim (1e-14 .. 1e-6: a dim target is not an all-zero one)
+            rows.append(dict(b=(b * draw(st.one_of(gens.log_uniform(0.05, 50.0), gens.log_uniform(0.05, 50.0), gens.log_uniform(1e-14, 1e-6)))).tolist(), kind=kind))
     return dict(system=sysd, rows=rows, neutral=neutral, relative=relative, regime=regime)
 
 
@@ -185,6 +186,8 @@ def body_dist(case):
             labs.append("band")
     if np.any(zero):
         labs.append("nt:zero-row")
+    if np.any((tot_in > 0) & (tot_in < 1e-6)):
+        labs.append("nt:dim-target")
     if sv.m == 2:
         labs.append("nt:dichromat")
     return labs
